@@ -293,6 +293,23 @@ def gen_request(rng):
     return path, hostile
 
 
+_LOGGING_BEGUN = [False]
+
+
+def _attach_log_observer(obs):
+    """Make `obs` a global log observer.  The first call *begins* logging with it, which also switches off twisted's
+    temporary stderr printer of critical events: a shard that prints a traceback per provoked failure fills its
+    stdout pipe and then blocks until the runner gets round to reading it (shards would run one after the other)."""
+    from twisted.logger import globalLogBeginner, globalLogPublisher
+
+    if not _LOGGING_BEGUN[0]:
+        _LOGGING_BEGUN[0] = True
+        globalLogBeginner.beginLoggingTo([obs], redirectStandardIO=False, discardBuffer=True)
+    else:
+        globalLogPublisher.addObserver(obs)
+
+
+
 class Web:
     def __init__(self, base):
         from twisted.internet import reactor
@@ -308,7 +325,7 @@ class Web:
         self.sites = {}
         self.log = LogCapture()
         self.pub = globalLogPublisher
-        self.pub.addObserver(self.log)
+        _attach_log_observer(self.log)
 
     def close(self):
         try:
